@@ -94,7 +94,7 @@ func c12TreeMain(args []string) error {
 	_ = sessSA
 	for _, c := range cases {
 		o := c12TreeObs{c12Tree: c}
-		nonce := fmt.Sprintf("vqc12x%dx%d", os.Getpid(), c.ID)
+		nonce := fmt.Sprintf("vqc12x%dx%dz", os.Getpid(), c.ID)
 		c.RootFirst = c.End == "exit"
 		o.c12Tree = c
 		// the caller's sync callback: accepts, or (end = syncfail) refuses the run once the tree is up
@@ -347,7 +347,7 @@ func c12CtrMain(args []string) error {
 			o.End = settle(nil, o.Base)
 		case "ptrace", "unshare":
 			one := func(i int) {
-				nonce := fmt.Sprintf("vqc12cx%dx%d", os.Getpid(), i)
+				nonce := fmt.Sprintf("vqc12cx%dx%dz", os.Getpid(), i)
 				ctx, cancel := context.WithCancel(context.Background())
 				defer cancel()
 				progs := [][]string{{"exit:0"}, {"exit:3"}, {"tree:l()l()", "exit:0"}, {"sleep:60000"}, {"raise:11"}}
